@@ -38,6 +38,9 @@ pub struct Local {
     err: u64,
     from_str: u64,
     from_reader: u64,
+    many: u64,
+    many_values: u64,
+    panics_after_err: u64,
     pub muts: BTreeMap<&'static str, u64>,
     targets: BTreeMap<&'static str, u64>,
     err_kinds: BTreeMap<&'static str, u64>,
@@ -278,6 +281,40 @@ fn run_doc(ctx: &mut Ctx, loc: &mut Local, all: &[TypeOps], doc: &str, own: usiz
             }
         }
     }
+    // one deserializer driven by hand for several values in a row, until the first error: every call has to return
+    if r.chance(1, 3) {
+        let ops = &all[if r.bool() { own } else { r.below(all.len()) }];
+        let reader = r.bool();
+        let docs = if r.bool() { format!("{}{}", doc, doc) } else { doc.to_string() };
+        let case = json!({"document": docs, "target": ops.name, "entry": if reader { "Deserializer::from_reader, 4 values" } else { "Deserializer::from_str, 4 values" }, "piece": if reader { 1 } else { 0 }, "values": 4});
+        ctx.journal(|| case.clone());
+        loc.many += 1;
+        let run = |n: usize| {
+            guarded(|| {
+                if reader {
+                    (ops.de_reader_many)(ChunkedRead::new(docs.as_bytes(), cuts_for_piece(docs.len(), 1, 0)), n)
+                } else {
+                    (ops.de_str_many)(&docs, n)
+                }
+            })
+        };
+        match run(4) {
+            Ok(v) => {
+                loc.many_values += v.iter().filter(|x| x.is_ok()).count() as u64;
+                // Observation only, no verdict: the same deserializer used again after it returned an error.
+                // No property says what that gives; on the current tree it can panic (DESIGN 6.1).
+                if v.last().map(|x| x.is_err()).unwrap_or(false) && run(4 | 0x100).is_err() {
+                    loc.panics_after_err += 1;
+                }
+            }
+            Err(p) => {
+                ctx.violation(case, format!("deserializing up to four values in a row into {} from one deserializer panicked: {}", ops.name, p));
+                if ctx.full() {
+                    return false;
+                }
+            }
+        }
+    }
     ctx.sample(|| json!({"document": doc.chars().take(200).collect::<String>(), "own_type": all[own].name}));
     true
 }
@@ -407,6 +444,9 @@ fn run(ctx: &mut Ctx) {
     ctx.add("results.err", loc.err);
     ctx.add("entry.from_str", loc.from_str);
     ctx.add("entry.from_reader", loc.from_reader);
+    ctx.add("entry.one_deserializer_up_to_four_values", loc.many);
+    ctx.add("entry.one_deserializer_values_obtained", loc.many_values);
+    ctx.add("observation.panics_when_a_deserializer_is_used_again_after_it_returned_an_error_not_judged", loc.panics_after_err);
     for (k, v) in &loc.muts {
         ctx.add(k, *v);
     }
@@ -428,6 +468,11 @@ fn replay(case: &Value, _ctx: &mut Ctx) -> Option<String> {
     let all = all_targets();
     let ops = all.iter().find(|o| o.name == case["target"].as_str().unwrap_or(""))?;
     let doc = case["document"].as_str().unwrap_or("");
+    if let Some(n) = case["values"].as_u64() {
+        let reader = case["entry"].as_str().map(|e| e.contains("from_reader")).unwrap_or(false);
+        let res = guarded(|| if reader { (ops.de_reader_many)(ChunkedRead::new(doc.as_bytes(), cuts_for_piece(doc.len(), 1, 0)), n as usize) } else { (ops.de_str_many)(doc, n as usize) });
+        return res.err().map(|p| format!("deserializing {} values in a row into {} from one deserializer panicked: {}", n, ops.name, p));
+    }
     let reader = case["entry"].as_str() == Some("from_reader");
     match exec(ops, doc, reader, case["piece"].as_u64().unwrap_or(0) as usize) {
         Ok(_) => None,
